@@ -191,5 +191,10 @@ def transform(layout, o, g, param, state, preconditioners, count, lr, unit=2.0 *
   dmom = w * dsu
   dupd = abs(mm) * ((w + beta1 * w) if o["nesterov"] else w) * dsu if run else np.zeros_like(dsu)
   risky = (not layout.skipped) and o["graft_type"] != "NONE" and pg.size > 0 and not (1e-15 < pnorm < 1e15)
+  # magnitude of the terms that are summed (the sums themselves may cancel)
+  mx = lambda a: float(np.max(np.abs(a), initial=0.0))
+  scale = max(mx(su), mx(gu), mx(state["momentum"]) * beta1, mx(state["diag_momentum"]) * beta1,
+              abs(wd) * mx(param))
   return -mm * nest, {"diag": new_diag, "momentum": sm, "diag_momentum": gm}, {
-      "update": dupd, "momentum": dmom, "norm_outside_float32_range": bool(risky)}
+      "update": dupd, "momentum": dmom, "norm_outside_float32_range": bool(risky),
+      "scale": scale, "update_scale": abs(mm) * (1 + beta1) * scale + (abs(wd) * mx(param) if wd else 0.0)}
